@@ -20,10 +20,10 @@ LEVEL_TEXT = ("all 596 pytz zones; windows around every UTC-offset transition (e
               "of every value checked against a reference derived from the unambiguous UTC->local direction")
 LEVEL_NOTE = "trusts pytz's UTC->local conversion (same tz database as the library uses)"
 RULE = ("Cases: (zone in pytz.all_timezones, naive local start = a transition of the zone minus 0-30 h (or a random date "
-        "1970-2037), minute offset 0 (10%: 15/30/45), length 1-72, values). Oracle: total preserved; index strictly "
+        "1970-2037), minute offset 0 (10%: 15/30/45), length 1-72 or a year-long series of 4500-9000 hours, values). Oracle: total preserved; index strictly "
         "increasing, unique, UTC; every local hour with exactly one valid UTC instant is found at that instant; values of "
         "repeated hours sit at one of their two instants; values of skipped hours land in [gap end, gap end + gap + 1 h]; "
-        "residual accounting: nothing appears anywhere else. Also through UsagePattern.utc_hourly_usage_journey_starts. "
+        "residual accounting: nothing appears anywhere else. Also through UsagePattern.utc_hourly_usage_journey_starts (year-long series included). "
         "Non-trivial = window containing a skipped or repeated local hour, or a zone offset that is not a whole hour.")
 ASSUMPTIONS = ["pytz (2024.1, the library's own database) UTC->local conversion is the ground truth",
                "where the property leaves freedom (which of two repeated instants; where exactly after a gap) any "
@@ -205,15 +205,16 @@ def cases(draw):
     if draw(st.floats(0, 1)) < 0.1:
         start = start.replace(minute=draw(st.sampled_from([15, 30, 45])))
     r = draw(st.floats(0, 1))
-    if r < 0.04:
-        # a long series spanning several transitions (a year of hourly values)
+    level = "system" if r > 0.9 else ("two_zones" if r > 0.82 else "function")
+    if draw(st.floats(0, 1)) < {"function": 0.05, "system": 0.15, "two_zones": 0.0}[level]:
+        # a long series spanning several transitions (a year of hourly values: first and last hour often have the same
+        # offset although the offset changed twice in between) - through the function and through a usage pattern
         n = draw(st.integers(4500, 9000))
         seedv = draw(st.integers(1, 97))
         vals = [float((i * seedv) % 13) for i in range(n)]
     else:
         vals = draw(st.lists(st.one_of(st.integers(0, 1000).map(float), st.integers(0, 400).map(lambda k: k / 8.0)),
                              min_size=n, max_size=n))
-    level = "system" if r > 0.9 else ("two_zones" if r > 0.82 else "function")
     if level == "two_zones":
         zone2 = draw(st.sampled_from(ALL_ZONES))
         if draw(st.floats(0, 1)) < 0.6:
@@ -278,6 +279,8 @@ def check(c, ctx):
                       {"kind": "wrong_conversion", "what": probs[0].split(" ")[0] + " " + probs[0].split(" ")[1]})
     if special:
         labels.append("dst_or_fractional_offset")
+    if len(c["values"]) >= 4500:
+        labels.append("year_long@" + c["level"])
     ctx.case(c, special, labels, sample={k: c[k] for k in ("zone", "start", "level")} | {"n": len(c["values"])})
 
 
